@@ -13,10 +13,10 @@ pub fn from_scan_error(err: saphyr_parser::ScanError) -> Error {
 
 /// `location::location_from_span_in`: the conversion `LiveEvents` applies, with the in-memory input.
 pub fn location_from_span_in(span: &saphyr_parser::Span, input: Option<&str>) -> Location {
-    crate::location::location_from_span_in(span, input)
+    crate::location::location_from_span_in(span, input.into())
 }
 
 /// `Error::from_scan_error_in`: the conversion `LiveEvents` applies, with the in-memory input.
 pub fn from_scan_error_in(err: saphyr_parser::ScanError, input: Option<&str>) -> Error {
-    Error::from_scan_error_in(err, input)
+    Error::from_scan_error_in(err, input.into())
 }
